@@ -66,6 +66,8 @@ func freshRootedAddr(v ssa.Value) bool {
 		switch x := v.(type) {
 		case *ssa.Alloc:
 			return true
+		case *ssa.Call:
+			return isFreshCall(x) // t := NewT(..); t.f = ..
 		case *ssa.FieldAddr:
 			v = x.X
 		case *ssa.IndexAddr:
@@ -83,46 +85,74 @@ func freshRootedAddr(v ssa.Value) bool {
 // read, written field by field and returned - never passed on or stored before) all of whose
 // assignments in this function are themselves such slices (result.variants = make(..) ... result.variants[i] = ..)
 func freshSliceValue(v ssa.Value, seen map[ssa.Value]bool) bool {
-	if locallyGrown(v, map[ssa.Value]bool{}) {
-		return true
-	}
 	if seen[v] {
 		return true
 	}
 	seen[v] = true
-	ld, ok := v.(*ssa.UnOp)
-	if !ok || ld.Op != token.MUL {
-		return false
-	}
-	fa, ok := ld.X.(*ssa.FieldAddr)
-	if !ok {
-		return false
-	}
-	a, ok := fa.X.(*ssa.Alloc)
-	if !ok || !privateAlloc(a) {
-		return false
-	}
-	stored := false
-	for _, u := range *a.Referrers() {
-		fa2, ok := u.(*ssa.FieldAddr)
-		if !ok || fa2.Field != fa.Field {
-			continue
+	switch x := v.(type) {
+	case *ssa.Const:
+		return x.IsNil()
+	case *ssa.MakeSlice:
+		return true
+	case *ssa.Slice:
+		if a := rootAllocOfAddr(x.X); a != nil {
+			return true
 		}
-		for _, u2 := range *fa2.Referrers() {
-			if st, ok := u2.(*ssa.Store); ok && st.Addr == fa2 {
-				stored = true
-				if !freshSliceValue(st.Val, seen) {
-					return false
+		return freshSliceValue(x.X, seen)
+	case *ssa.Phi:
+		for _, e := range x.Edges {
+			if !freshSliceValue(e, seen) {
+				return false
+			}
+		}
+		return true
+	case *ssa.Call:
+		if b, ok := x.Call.Value.(*ssa.Builtin); ok && b.Name() == "append" {
+			return freshSliceValue(x.Call.Args[0], seen)
+		}
+		return false
+	case *ssa.UnOp:
+		if x.Op != token.MUL {
+			return false
+		}
+		fa, ok := x.X.(*ssa.FieldAddr)
+		if !ok {
+			return false
+		}
+		var a ssa.Value
+		switch r := fa.X.(type) {
+		case *ssa.Alloc:
+			a = r // fields start as zero values
+		case *ssa.Call:
+			// an object made by a callee that stores no slice into anything: its slice fields are nil
+			if isFreshCall(r) && returnsFlat[r.Call.Value.(*ssa.Function)] {
+				a = r
+			}
+		}
+		if a == nil || !privateAlloc(a) {
+			return false
+		}
+		for _, u := range *a.Referrers() {
+			fa2, ok := u.(*ssa.FieldAddr)
+			if !ok || fa2.Field != fa.Field {
+				continue
+			}
+			for _, u2 := range *fa2.Referrers() {
+				if st, ok := u2.(*ssa.Store); ok && st.Addr == fa2 {
+					if !freshSliceValue(st.Val, seen) {
+						return false
+					}
 				}
 			}
 		}
+		return true
 	}
-	return stored
+	return false
 }
 
 // the Alloc's address is used only to address its fields (loaded, stored to, indexed) and as a
 // return value: no callee and no other object can have changed its fields
-func privateAlloc(a *ssa.Alloc) bool {
+func privateAlloc(a ssa.Value) bool {
 	for _, u := range *a.Referrers() {
 		switch x := u.(type) {
 		case *ssa.FieldAddr:
@@ -145,7 +175,110 @@ func privateAlloc(a *ssa.Alloc) bool {
 	return true
 }
 
+// functions whose every return value is an object allocated by the call (directly, or by another
+// such function): `return &T{..}`.  Least fixpoint, so recursion counts as "not known".
+var returnsFresh = map[*ssa.Function]bool{}
+
+// returnsFresh functions that store no slice anywhere (and return only objects made by such
+// functions): every slice field of the returned object is nil
+var returnsFlat = map[*ssa.Function]bool{}
+
+func isFreshCall(c *ssa.Call) bool {
+	if c.Call.IsInvoke() {
+		return false
+	}
+	fn, ok := c.Call.Value.(*ssa.Function)
+	return ok && returnsFresh[fn]
+}
+
+func (e *Engine) computeReturnsFresh() {
+	returnsFresh = map[*ssa.Function]bool{}
+	for changed := true; changed; {
+		changed = false
+		for _, fn := range e.allFuncs {
+			if returnsFresh[fn] || !e.inModule(fn) || fn.Blocks == nil || fn.Signature.Results().Len() != 1 {
+				continue
+			}
+			if _, isPtr := fn.Signature.Results().At(0).Type().Underlying().(*types.Pointer); !isPtr {
+				continue
+			}
+			ok, any := true, false
+			for _, b := range fn.Blocks {
+				for _, ins := range b.Instrs {
+					r, isRet := ins.(*ssa.Return)
+					if !isRet {
+						continue
+					}
+					any = true
+					switch v := r.Results[0].(type) {
+					case *ssa.Alloc:
+					case *ssa.Call:
+						if !isFreshCall(v) {
+							ok = false
+						}
+					default:
+						ok = false
+					}
+				}
+			}
+			if ok && any {
+				returnsFresh[fn] = true
+				changed = true
+			}
+		}
+	}
+	returnsFlat = map[*ssa.Function]bool{}
+	for changed := true; changed; {
+		changed = false
+		for fn := range returnsFresh {
+			if returnsFlat[fn] {
+				continue
+			}
+			flat := true
+			for _, b := range fn.Blocks {
+				for _, ins := range b.Instrs {
+					switch x := ins.(type) {
+					case *ssa.Store:
+						if _, isSlice := x.Val.Type().Underlying().(*types.Slice); isSlice {
+							flat = false
+						}
+						if isStruct(x.Val.Type()) {
+							flat = false // whole-struct copy may carry slices
+						}
+					case *ssa.Return:
+						if c, ok := x.Results[0].(*ssa.Call); ok && !returnsFlat[c.Call.Value.(*ssa.Function)] {
+							flat = false
+						}
+					case ssa.CallInstruction:
+						// any other call could fill the object: only calls whose result is returned are allowed
+						if cv, ok := ins.(*ssa.Call); !ok || !returnedOnly(cv) {
+							flat = false
+						}
+					}
+				}
+			}
+			if flat {
+				returnsFlat[fn] = true
+				changed = true
+			}
+		}
+	}
+}
+
+// the call's result is used only as a return value
+func returnedOnly(c *ssa.Call) bool {
+	for _, u := range *c.Referrers() {
+		switch u.(type) {
+		case *ssa.Return, *ssa.DebugRef:
+		default:
+			return false
+		}
+	}
+	return true
+}
+
 func (e *Engine) computeNonFresh() {
+	e.computeReturnsFresh()
 	e.nonFresh = map[*ssa.Function]map[string]bool{}
 	type info struct{ callees []*ssa.Function }
 	infos := map[*ssa.Function]*info{}
